@@ -61,11 +61,31 @@ def memoise():
         persian.equinox_jd = functools.lru_cache(None)(persian.equinox_jd)
 
 
-def jalali_forms(y, m, d, g, full, rnd):
-    from dateparser.calendars.jalali_parser import jalali_parser as jp
+_JV = None
 
-    months = list(jp._months.items())
-    wds = dict(jp._weekdays.items())
+
+def jalali_vocab():
+    """(months [(name, (index, length, [spellings]))], weekdays {English: [spellings]}, spelled days {n: [spellings]}) read from
+    the parser's own tables; when those attributes were renamed in the tree under test, from the copy committed with the checks."""
+    global _JV
+    if _JV is None:
+        try:
+            from dateparser.calendars.jalali_parser import jalali_parser as jp
+
+            _JV = (list(jp._months.items()), dict(jp._weekdays.items()), {int(k): list(v) for k, v in jp._number_letters.items()})
+        except Exception:
+            import json
+            import os
+
+            with open(os.path.join(os.path.dirname(os.path.dirname(os.path.abspath(__file__))), "data", "jalali_vocab.json"),
+                      encoding="utf-8") as f:
+                d = json.load(f)
+            _JV = ([(k, tuple(v)) for k, v in d["months"]], d["weekdays"], {int(k): v for k, v in d["number_letters"].items()})
+    return _JV
+
+
+def jalali_forms(y, m, d, g, full, rnd):
+    months, wds, letters = jalali_vocab()
     forms = [("num/", g, "%04d/%02d/%02d" % (y, m, d))]
     if d > 12:
         # month first, the library's default field order; unambiguous because the second field cannot be a month
@@ -83,7 +103,7 @@ def jalali_forms(y, m, d, g, full, rnd):
     for wv in wds[wd_en]:
         forms.append(("weekday", g, "%s %d %s %d" % (wv, d, mname, y)))
         forms.append(("weekday-persian-digits", g, pers("%s %d %s %d" % (wv, d, mname, y))))
-    for sv in jp._number_letters[d]:
+    for sv in letters[d]:
         forms.append(("spelled-day", g, "%s %s %d" % (sv, mname, y)))
         forms.append(("spelled-day-ordinal", g, "%sم %s %d" % (sv, mname, y)))
     forms.append(("time-hhmm", g.replace(hour=10, minute=45), "%d %s %d 10:45" % (d, mname, y)))
